@@ -241,10 +241,19 @@ BEGIN
     UPDATE step SET _check_after = 1 WHERE node IN (NEW.source, NEW.sink);
     UPDATE step SET _check_ready = 1 WHERE node = NEW.sink;
 END;
+-- (Dropped first, so that a database created before the third statement was added gets it too:
+-- CREATE TRIGGER IF NOT EXISTS alone would keep the old body.)
+DROP TRIGGER IF EXISTS step_dependency_check_after_del;
 CREATE TRIGGER IF NOT EXISTS step_dependency_check_after_del AFTER DELETE ON dependency
 BEGIN
     UPDATE step SET _check_after = 1 WHERE node IN (OLD.source, OLD.sink);
     UPDATE step SET _check_ready = 1 WHERE node = OLD.sink;
+    -- When the deleted edge is file -> step, the producers of that file lose a consumer two hops
+    -- downstream. Propagation in Scheduler._update_meta_after() follows the edges that still
+    -- exist, so it cannot reach them from the sink: flag them here. (A no-op when OLD.source is
+    -- a step: nothing but files has an edge into a step.)
+    UPDATE step SET _check_after = 1
+    WHERE node IN (SELECT source FROM dependency WHERE sink = OLD.source);
 END;
 
 -- Keep _check_ready in sync with file state changes, so the scheduler recomputes
